@@ -104,6 +104,31 @@ def graph_shard(seed: int, examples: int, known: list[str]) -> dict:
                 self.flags.add("final_released")
                 self.edges = {(w, x) for (w, x) in self.edges if x != i}
 
+        @rule(i=st.integers(0, N - 1), how=st.sampled_from(["SUCCESS", "FAILED", "CONCURRENCY_CONTROLLED_FINAL"]))
+        def finish(self, i, how):
+            """Drive invocation i to a final status along the shortest public path (finals release waiters)."""
+            cur = self.status[i]
+            if cur in L.FINAL:
+                return
+            path = {"REGISTERED": ["PENDING", "RUNNING"], "REROUTED": ["PENDING", "RUNNING"], "RETRY": ["PENDING", "RUNNING"], "PENDING": ["RUNNING"], "RUNNING": [],
+                    "PAUSED": ["RESUMED"], "RESUMED": [], "KILLED": ["REROUTED", "PENDING", "RUNNING"], "CONCURRENCY_CONTROLLED": ["REROUTED", "PENDING", "RUNNING"],
+                    "PENDING_RECOVERY": ["REROUTED", "PENDING", "RUNNING"], "RUNNING_RECOVERY": ["REROUTED", "PENDING", "RUNNING"]}[cur]
+            if how == "CONCURRENCY_CONTROLLED_FINAL":
+                if cur != "REGISTERED":
+                    how = "SUCCESS"
+                else:
+                    path = []
+            who = self.owner[i] if cur in L.OWNED else "A"
+            self._t("finish", i, how)
+            for target in [*path, how]:
+                for k, app in self.apps.items():
+                    app.orchestrator.set_invocation_status(self.ids[k][i], S[target], apps.rctx(who))
+                out, ns, no = L.step(self.status[i], self.owner[i], target, who)
+                assert out == L.OK, (self.status[i], target)
+                self.status[i], self.owner[i] = ns, no
+            self.flags.add("final_released")
+            self.edges = {(w, x) for (w, x) in self.edges if x != i}
+
         @rule(n=st.sampled_from([0, 1, 2, 3, 100]))
         def query(self, n):
             exp = self.expected()
@@ -246,7 +271,7 @@ def _dispatch(name: str, args: tuple) -> dict:
 def run(ctx: Ctx) -> None:
     known = sorted(ctx.known_keys())
     q = ctx.quick
-    jobs = [("graph_shard", (ctx.seed * 100 + k, 30 if q else 500, known)) for k in range(6)]
+    jobs = [("graph_shard", (ctx.seed * 100 + k, 60 if q else 800, known)) for k in range(6)]
     jobs += [("tree_shard", ("mem", ctx.seed * 100 + 20 + k, 10 if q else 250, known)) for k in range(5)]
     jobs += [("tree_shard", ("sqlite", ctx.seed * 100 + 40 + k, 10 if q else 250, known)) for k in range(5)]
     merge_parts(ctx, pmap(_dispatch, jobs))
